@@ -67,5 +67,10 @@ Ltac rcmp1 :=
   | |- context [Reqb ?x ?y] => let H := fresh "C" in destruct (Reqb x y) eqn:H; [apply Reqb_true in H | apply Reqb_false in H]
   end.
 
+(* `ring`/`field` need the carrier to be syntactically R *)
+Ltac rnorm := change (T ROps) with R in *.
+Ltac rring := rnorm; ring.
+Ltac rfield := rnorm; field.
+
 Lemma Rfloor_spec x : Rfloor x <= x < Rfloor x + 1.
 Proof. unfold Rfloor. destruct (base_Int_part x). lra. Qed.
